@@ -128,6 +128,20 @@ def _nodel(x):
     return x
 
 
+def _foreign_value(node, names, cfg, depth):
+    """a fixed conforming value of a named type (computed outside CrossHair's tracer: `samples` draws from `random`,
+    which CrossHair would turn into symbolic choices)"""
+    def make():
+        fv = samples(node, names, cfg, 11, n=1)[0]
+        return _build(node, names, fv, cfg, depth, None, None)
+    try:
+        from crosshair.tracers import NoTracing
+    except Exception:
+        return make()
+    with NoTracing():
+        return make()
+
+
 def build(node, names, v, cfg, depth=None, hints=None, mut=None):
     if mut is not None:
         r = mut.visit()
@@ -253,8 +267,7 @@ def _build(node, names, v, cfg, depth=None, hints=None, mut=None):
             for full in sorted(names):
                 if full not in own and names[full]["k"] in ("record", "enum", "fixed"):
                     hints.wrong = True
-                    fv = samples(names[full], names, cfg, 11, n=1)[0]
-                    return (full, _build(names[full], names, fv, cfg, depth, None, None))
+                    return (full, _foreign_value(names[full], names, cfg, depth))
             raise OutOfDomain()
         raise OutOfDomain()
     if k == "record":
